@@ -170,8 +170,16 @@ def main(prop, mod, tier, seed):
                         break
             # 2. contract-directed native search
             if witness is None and u.search is not None:
+                hints = []
+                for ob in bad:
+                    b = ((ob.get('detail') or {}).get('inputs') or {}).get('buf') if isinstance((ob.get('detail') or {}).get('inputs'), dict) else None
+                    if isinstance(b, dict) and b.get('hex') is not None:
+                        try:
+                            hints.append(bytes.fromhex(b['hex']))
+                        except ValueError:
+                            pass
                 try:
-                    w = u.search(seed)
+                    w = u.search(seed, hints) if u.search.__code__.co_argcount >= 2 else u.search(seed)
                 except Exception:
                     w = dict(reproduced=False, error=traceback.format_exc())
                 if w and w.get('reproduced'):
